@@ -156,7 +156,7 @@ func runC07(cfg *vh.Config) error {
 	res := vh.NewResult("C07", cfg.Seed)
 	res.Rule = "isolation matrix: every field type x rule presence x list-rule presence x format x key qualifiers, as a plain field (all required/optional combinations), array item (with/without array ext and rules) and map item, alone in `object Foo` in a file with nothing else (referenced types in the same or another file); declaration matrix (enum info, entity/psm, services with options, topics, entities, imports) alone in a file; malformed stream: random bytes, byte flips, token-level deletions/duplications/swaps/replacements/truncations of valid files; semantic-error files. non-trivial = distinct source text other than the empty file"
 	cf := &vh.CasesFile{
-		Header: "From Coq Require Import String List NArith.\nFrom J5V.model Require Import CmpbFields CmpbFieldsCorr.",
+		Header: "From Coq Require Import String List NArith.\nFrom J5V.model Require Import CmpbFields CmpbDecls CmpbFieldsCorr.",
 		Type:   "c07case",
 		Check:  "c07_check",
 	}
@@ -211,6 +211,62 @@ func runC07(cfg *vh.Config) error {
 			res.Sample(map[string]any{"stream": "iso", "source": content[mainFile], "imports": o.Imports, "field_extensions": o.Exts}, 3)
 		}
 		caseNo++
+	}
+
+	// ---- stream 1b: abstract enums and services alone in a file, against model/CmpbDecls.v
+	{
+		rAbs := cfg.R.Fork("abs")
+		enums := genEnums(rAbs, cfg.Scale(60, 600))
+		svcs := genServices(rAbs, cfg.Scale(120, 1500))
+		type absCase struct {
+			Kind, Coq, Text, Path string
+			InLang, ListReq   bool
+		}
+		var acs []absCase
+		for _, e := range enums {
+			acs = append(acs, absCase{"CEnum", e.Coq(), e.Text(), mainProto, true, false})
+		}
+		for _, sv := range svcs {
+			lang := len(sv.Methods) > 0
+			lr := false
+			for _, m := range sv.Methods {
+				lang = lang && m.PathOK
+				lr = lr || m.ListRequest
+			}
+			acs = append(acs, absCase{"CService", sv.Coq(), sv.Text(), "foo/v1/service/a.p.j5s.proto", lang, lr})
+		}
+		obs := parallel(len(acs), "abs", caseNo,
+			func(i int) any { return map[string]any{"decl": acs[i].Coq, "files": map[string]string{mainFile: acs[i].Text}} },
+			func(i int) declObs { return observeDecl(acs[i].Text, acs[i].Path) })
+		for i, a := range acs {
+			o := obs[i]
+			in := map[string]any{"decl": a.Coq, "files": map[string]string{mainFile: a.Text}}
+			content := map[string]string{mainFile: a.Text}
+			distinct.Add(a.Text)
+			res.Count("abs")
+			res.Count("abs_" + o.Verdict)
+			switch o.Verdict {
+			case "VPanic":
+				if !a.ListReq { // the list_request panic is judged (and recorded) in the declaration stream
+					res.Fail(vh.Failure{Case: caseNo, Stream: "abs", Sig: fmt.Sprintf("C07 %s alone in a file: panic %s", a.Kind[1:], errClass(o.ErrText)), Clause: "never panics", Input: in, Got: o.ErrText})
+				}
+			case "VOther":
+				res.Fail(vh.Failure{Case: caseNo, Stream: "abs", Sig: fmt.Sprintf("C07 %s alone in a file: %s", a.Kind[1:], errClass(o.ErrText)), Clause: "generated file parses (harness expectation) / no hang", Input: in, Got: o.ErrText})
+			case "VLinkErr":
+				res.Fail(vh.Failure{Case: caseNo, Stream: "abs", Sig: fmt.Sprintf("C07 %s alone in a file: link error in isolation", a.Kind[1:]), Clause: "accepted and links without depending on unrelated declarations", Input: in, Got: o.ErrText})
+			case "VConvErr":
+				if a.InLang {
+					res.Fail(vh.Failure{Case: caseNo, Stream: "abs", Sig: fmt.Sprintf("C07 %s of the documented language rejected (%s)", a.Kind[1:], errClass(o.ErrText)), Clause: "every package within the documented language is accepted", Input: in, Got: o.ErrText})
+				}
+			case "VOk":
+				if len(corpus) < 500 {
+					corpus = append(corpus, content)
+				}
+			}
+			cf.Terms = append(cf.Terms, fmt.Sprintf("%s %s %s %s %s", a.Kind, a.Coq, o.Verdict, coqStrList(o.Imports), coqStrList(o.Exts)))
+			res.Cases = append(res.Cases, vh.CaseRec{Case: caseNo, Stream: "abs", Input: in, Impl: o})
+			caseNo++
+		}
 	}
 
 	// ---- stream 2: declaration-level isolation (direct oracle)
@@ -268,7 +324,7 @@ func runC07(cfg *vh.Config) error {
 
 	// ---- stream 3: malformed inputs (random bytes, byte flips, token mutations) through Compile and LintFile
 	rMut := cfg.R.Fork("mut")
-	nMut := cfg.Scale(500, 12000)
+	nMut := cfg.Scale(350, 12000)
 	mutContents := make([]map[string]string, nMut)
 	mutHow := make([]string, nMut)
 	for i := 0; i < nMut; i++ {
@@ -360,7 +416,21 @@ func runC07(cfg *vh.Config) error {
 				res.Fail(vh.Failure{Case: caseNo, Stream: "sem", Sig: "C07 semantic error " + d.Name + ": accepted", Clause: "returns descriptors or errors (an invalid file is not silently accepted)", Input: in, Got: "compiled"})
 			}
 		}
-		for _, l := range semAll[si].Lints {
+		for li, l := range semAll[si].Lints {
+			// what LintFile reports (or fails with) must be positioned inside the linted source too
+			var j5s []string
+			for _, fn := range sortedFileNames(d.Files) {
+				if strings.HasSuffix(fn, ".j5s") {
+					j5s = append(j5s, fn)
+				}
+			}
+			if l.Panic == nil && !l.TimedOut && li < len(j5s) {
+				if l.Err != nil {
+					checkPositions(res, caseNo, "sem", "semantic error "+d.Name+" (LintFile returned error)", cmpb.Positions(l.Err), d.Files, j5s[li], in)
+				} else if len(l.Pos) > 0 {
+					checkPositions(res, caseNo, "sem", "semantic error "+d.Name+" (LintFile report)", l.Pos, d.Files, j5s[li], in)
+				}
+			}
 			if l.Panic != nil {
 				res.Fail(vh.Failure{Case: caseNo, Stream: "sem", Sig: fmt.Sprintf("C07 semantic error %s: lint panic %s", d.Name, errClass(fmt.Sprint(l.Panic))), Clause: "never panics (lint path)", Input: in, Got: fmt.Sprint(l.Panic)})
 			} else if l.TimedOut {
@@ -368,6 +438,13 @@ func runC07(cfg *vh.Config) error {
 			}
 		}
 		la := semAll[si].All
+		if la.Panic == nil && !la.TimedOut {
+			if la.Err != nil {
+				checkPositions(res, caseNo, "sem", "semantic error "+d.Name+" (LintAll returned error)", cmpb.Positions(la.Err), d.Files, d.Main, in)
+			} else if len(la.Pos) > 0 {
+				checkPositions(res, caseNo, "sem", "semantic error "+d.Name+" (LintAll report)", la.Pos, d.Files, d.Main, in)
+			}
+		}
 		if la.Panic != nil {
 			res.Fail(vh.Failure{Case: caseNo, Stream: "sem", Sig: fmt.Sprintf("C07 semantic error %s: LintAll panic %s", d.Name, errClass(fmt.Sprint(la.Panic))), Clause: "never panics (lint path)", Input: in, Got: fmt.Sprint(la.Panic)})
 		}
